@@ -18,7 +18,7 @@ def cfg_for(lf: int, tier: str) -> dict:
         cap = {2: 5, 3: 6}.get(lf, cap)
     return {
         'lf': lf, 'cap': cap, 'maxins': min(cap, lf + 1), 'nl_classes': ['n', 'm'],
-        'maxnl': 1 if lf >= 4 else 2, 'oracles': ['pos'], 'update': True, 'update_classes': ['x', 'n', 'm', 'e', 'k'], 'empty': True,
+        'maxnl': 1 if lf >= 4 else 2, 'oracles': ['pos'], 'update': True, 'update_classes': ['x', 'n', 'm', 'e', 'k', 'j', 'f'], 'empty': True,
     }
 
 
